@@ -47,8 +47,8 @@ fn main() {
         check.cap(&format!("VERIF_C05_FAMILIES restricts the run to {r:?}"));
     }
     let enabled = |f: &str| restrict.as_ref().map(|r| r.iter().any(|x| x == f)).unwrap_or(true);
-    for (fam, chunk_q, chunk_t) in [("pixel", 2048u64, 2048u64), ("words", 512, 2048), ("edits", 1024, 4096), ("shorts", 1024, 32768)] {
-        if !enabled(fam) {
+    for (fam, chunk_q, chunk_t) in [("pixel", 2048u64, 2048u64), ("words", 512, 2048), ("edits", 1024, 4096), ("shorts", 1024, 32768), ("selftest", 300, 300)] {
+        if !enabled(fam) || (fam == "selftest" && restrict.is_none()) {
             continue;
         }
         let n = vx_robust::family_size(fam, thorough);
